@@ -126,6 +126,7 @@ inductive Tab where
   | half (l : List StHalf) (ptDur hpDur : Option (List Rat))         -- + half-peak points (+ half_peak_duration)
   | recov (l : List Feat) (ptDur hpDur : Option (List Rat)) (slopes : Option (List (XRat × XRat)))
         (recSl : Option (List XRat))                                 -- + recovery point (+ slopes)
+deriving DecidableEq
 
 /-- one stage of `compute_spike_features` on the batch (`T = arr_in.shape[1]`, `fs` the sampling rate) -/
 def runStage (T : Nat) (fs : Rat) : Stage → Tab → Except CallErr Tab
